@@ -702,7 +702,96 @@ theorem ev_async (s : S) (hc : Core s) : Core (async s) := by
         exact hi.2 (by omega) v hv
       · intro _ ⟨b', hb'⟩
         simp [ctrl] at hb'
-    · left; exact hst
+    · left; rfl
   · exact ev_asyncCommit _ _ _ hn
+
+
+/-! ### start (first start: nothing in the WALs) and whole runs without crash -/
+
+theorem core_of_nosent (s : S) (hs : sentOf s.eff = []) (hp : s.pend = .none) : Core s := by
+  unfold Core
+  refine ⟨?_, ?_, ?_, ?_⟩
+  · intro v hv; simp [ctrl, hs] at hv
+  · simp [ctrl, hs]
+  · intro _ ⟨b, hb⟩; simp [ctrl, hp] at hb
+  · intro h r b hb; simp [ctrl, hp] at hb
+
+@[simp] theorem walDurable_nil (w : Wal) : walDurable w [] = [] := rfl
+@[simp] theorem applyRoundWAL_nil (s : S) : applyRoundWAL s [] = s := by unfold applyRoundWAL; rfl
+@[simp] theorem applyLockWAL_nil (s : S) : applyLockWAL s none none [] = s := by unfold applyLockWAL; rfl
+@[simp] theorem applyCommitWAL_nil (s : S) : applyCommitWAL s [] = s := by unfold applyCommitWAL; rfl
+
+theorem rfh_keep (s : S) (h : Nat) :
+    (s.resetForNewHeight h).eff = s.eff ∧ (s.resetForNewHeight h).pend = s.pend := by
+  unfold S.resetForNewHeight S.beginStep S.resetRound_ S.endStep
+  simp only []
+  split <;> exact ⟨rfl, rfl⟩
+
+theorem ev_start_fresh (s : S) (he : s.eff = []) (hns : s.started = false) : Core (start s) := by
+  unfold start
+  rw [if_neg (by simp [hns])]
+  simp only [he]
+  have hk := rfh_keep ({ n := s.n, me := s.me, dbHeight := s.dbHeight, eff := [], bpm := [], stuck := s.stuck } : S)
+    (s.dbHeight + 1)
+  generalize (({ n := s.n, me := s.me, dbHeight := s.dbHeight, eff := [], bpm := [], stuck := s.stuck } : S).resetForNewHeight
+    (s.dbHeight + 1)) = s1 at hk ⊢
+  have he1 : s1.eff = [] := hk.1
+  simp only [he1, walDurable_nil, applyRoundWAL_nil, applyLockWAL_nil, applyCommitWAL_nil]
+  have hp1 : s1.pend = .none := hk.2
+  have hc : ∀ x : S, sentOf x.eff = [] → x.pend = .none → Core x := core_of_nosent
+  split
+  · exact (ih_all _).enterPropose _ (core_rfs _ _ (by decide) (by decide) (hc _ rfl hp1))
+  split
+  · exact (ih_all _).enterPropose _ (hc _ rfl hp1)
+  split
+  · exact (ih_all _).enterPrevote _ (hc _ rfl hp1)
+  split
+  · split
+    · exact (ih_all _).enterPrevoteWait _ (hc _ rfl hp1)
+    · exact hc _ rfl hp1
+  split
+  · split
+    · exact (ih_all _).enterPrecommitWait _ (hc _ rfl hp1)
+    · exact hc _ rfl hp1
+  · exact hc _ rfl hp1
+
+/-- crash-free event -/
+def Event.noCrash : Event → Prop
+  | .crash _ _ => False
+  | .start => False          -- a second `start` only follows a crash
+  | _ => True
+
+theorem vstep_core (s : S) (e : Event) (hn : e.noCrash) (hc : Core s) : Core (vstep s e) := by
+  cases e with
+  | start => exact absurd hn (by simp [Event.noCrash])
+  | proposal sg h r b pol => exact ev_recvProposal s sg h r b pol hc
+  | blockPart h b => exact ev_recvBlockPart s h b hc
+  | vote m => exact ev_recvVote s m hc
+  | timeout st => exact ev_timeout s st hc
+  | async => exact ev_async s hc
+  | crash c k => exact absurd hn (by simp [Event.noCrash])
+
+theorem run_core (s : S) (evs : List Event) (hn : ∀ e ∈ evs, e.noCrash) (hc : Core s) : Core (run s evs) := by
+  induction evs generalizing s with
+  | nil => exact hc
+  | cons e t ih =>
+    unfold run
+    exact ih _ (fun e' he' => hn e' (List.mem_cons_of_mem _ he')) (vstep_core s e (hn e List.mem_cons_self) hc)
+
+theorem lexLt_irrefl (a : Key) : ¬ lexLt a a := by unfold lexLt; omega
+
+theorem pairwise_msgLt_unique {l : List Msg} (hp : l.Pairwise msgLt) {v w : VoteRec}
+    (hv : Msg.vote v ∈ l) (hw : Msg.vote w ∈ l) (hk : voteKey v = voteKey w) : v = w := by
+  induction l with
+  | nil => cases hv
+  | cons a t ih =>
+    rw [List.pairwise_cons] at hp
+    rcases List.mem_cons.mp hv with h1 | h1 <;> rcases List.mem_cons.mp hw with h2 | h2
+    · rw [← h1] at h2; exact (Msg.vote.inj h2).symm ▸ rfl
+    · have := hp.1 _ h2; rw [← h1] at this; simp only [msgLt] at this; rw [hk] at this
+      exact absurd this (lexLt_irrefl _)
+    · have := hp.1 _ h1; rw [← h2] at this; simp only [msgLt] at this; rw [hk] at this
+      exact absurd this (lexLt_irrefl _)
+    · exact ih hp.2 h1 h2
 
 end Goloop.C01
